@@ -13,7 +13,7 @@ use ldap3::controls::{parse_syncinfo, Assertion, Control, ControlType, EntryStat
 use ldap3::exop::{EndTxn, EndTxnResp, Exop, PasswordModify, PasswordModifyResp, StartTxn, StartTxnResp, WhoAmI, WhoAmIResp};
 use ldap3::{ResultEntry, SearchEntry};
 use lber::parse::parse_tag;
-use lber::structure::StructureTag;
+use lber::structure::{StructureTag, PL};
 use lber::structures::Tag;
 
 // ---- RFC constants (copied from the RFC texts, independent of the crate's constants)
@@ -386,7 +386,7 @@ fn frame_with_controls(rng: &mut Rng, id: i64, controls: &StructureTag, vary: bo
 }
 
 pub fn run(thorough: bool, mut rng: Rng, mut out: Out) {
-    let reps = if thorough { 12 } else { 2 };
+    let reps = if thorough { 12 } else { 3 };
 
     // ================= request controls =================
     // ---- PagedResults (RFC 2696)
@@ -580,11 +580,16 @@ pub fn run(thorough: bool, mut rng: Rng, mut out: Out) {
     }
 
     // ================= response values, encoded by the lane (RFC ASN.1, random length forms) =================
+    let mut valid: Vec<StructureTag> = vec![];
+    let mut valid_si: Vec<StructureTag> = vec![];
     // ---- PagedResults
     for &size in &sizes {
         for &cl in COOKIE_LENS {
             let cookie = gen_cookie(&mut rng, cl);
             let t = cons(0, 16, vec![prim(0, 2, int_octets(size as i64)), octets(&cookie)]);
+            if cl <= 1 {
+                valid.push(t.clone());
+            }
             let bs = spec_enc(&t, &mut rng, true);
             out.case(&format!("paged-resp {}", hex(&bs)), true);
             let rc = rc_of(Some(bs.clone()));
@@ -603,6 +608,7 @@ pub fn run(thorough: bool, mut rng: Rng, mut out: Out) {
             if let Some(c) = &cookie {
                 ks.push(octets(c));
             }
+            valid.push(cons(0, 16, ks.clone()));
             let bs = spec_enc(&cons(0, 16, ks), &mut rng, true);
             out.case(&format!("syncstate {}", hex(&bs)), true);
             out.stat(&format!("syncstate.state={}", state));
@@ -622,6 +628,7 @@ pub fn run(thorough: bool, mut rng: Rng, mut out: Out) {
                 ks.push(octets(c));
             }
             ks.extend(bool_opt(&mut rng, false, rd));
+            valid.push(cons(0, 16, ks.clone()));
             let bs = spec_enc(&cons(0, 16, ks), &mut rng, true);
             out.case(&format!("syncdone {}", hex(&bs)), cookie.is_some() || rd);
             let rc = rc_of(Some(bs.clone()));
@@ -663,6 +670,7 @@ pub fn run(thorough: bool, mut rng: Rng, mut out: Out) {
                     (cons(2, 3, ks), format!("syncidset cookie={} rd={} uuids=[{}]", opt_hex(&cookie), bit(flag), canon_set(uuids.iter())))
                 }
             };
+            valid_si.push(val_t.clone());
             let val = spec_enc(&val_t, &mut rng, true);
             let msg = syncinfo_msg(rng.chance(4, 5), RFC_SYNC_INFO.as_bytes(), val);
             let canon = tlv(&msg);
@@ -686,6 +694,7 @@ pub fn run(thorough: bool, mut rng: Rng, mut out: Out) {
         let got = parse_outcome(move || Exop { name: None, val: Some(v) }.parse::<StartTxnResp>(), |r| format!("txn_id={}", hex(r.txn_id.as_bytes())));
         out.m(&format!("exop.parse starttxn {}", hex(&b)), &got);
         out.r("starttxn.parse = encoded", got == format!("txn_id={}", hex(&b)), &got);
+        valid.push(cons(0, 16, vec![prim(2, 0, b.clone())]));
         let bs = spec_enc(&cons(0, 16, vec![prim(2, 0, b.clone())]), &mut rng, true);
         let v = bs.clone();
         let got = parse_outcome(move || Exop { name: None, val: Some(v) }.parse::<PasswordModifyResp>(), |r| format!("gen_pass={}", hex(r.gen_pass.as_bytes())));
@@ -730,6 +739,7 @@ pub fn run(thorough: bool, mut rng: Rng, mut out: Out) {
             out.stat(if rfc_layout { "endtxn.rfc-layout" } else { "endtxn.flat-layout" });
             ks.push(cons(0, 16, pairs));
         }
+        valid.push(cons(0, 16, ks.clone()));
         let bs = spec_enc(&cons(0, 16, ks), &mut rng, true);
         out.case(&format!("endtxn-resp {}", hex(&bs)), true);
         let v = bs.clone();
@@ -764,6 +774,32 @@ pub fn run(thorough: bool, mut rng: Rng, mut out: Out) {
         out.stat("malformed-or-arbitrary.values");
         parse_all(&mut out, &Some(bs));
     }
+    // near-valid values: one structural mutation of a well-formed response tree
+    for _ in 0..(if thorough { 20000 } else { 2500 }) {
+        let base = rng_pick_tree(&mut rng, &valid).clone();
+        let t = mutate_tree(&mut rng, &base);
+        let bs = spec_enc(&t, &mut rng, false);
+        if bs.len() > 1500 {
+            continue;
+        }
+        out.case(&format!("value {}", hex(&bs)), true);
+        out.stat("near-valid.values");
+        parse_all(&mut out, &Some(bs));
+    }
+    for _ in 0..(if thorough { 10000 } else { 1500 }) {
+        let base = rng_pick_tree(&mut rng, &valid_si).clone();
+        let t = mutate_tree(&mut rng, &base);
+        let val = spec_enc(&t, &mut rng, false);
+        let wn = rng.chance(1, 2);
+        let msg = if rng.chance(1, 8) { let m0 = syncinfo_msg(true, RFC_SYNC_INFO.as_bytes(), val); mutate_tree(&mut rng, &m0) } else { syncinfo_msg(wn, RFC_SYNC_INFO.as_bytes(), val) };
+        let canon = tlv(&msg);
+        if canon.len() > 4000 {
+            continue;
+        }
+        out.case(&format!("syncinfo {}", canon), true);
+        out.stat("syncinfo.near-valid");
+        out.m(&format!("ctl.parse syncinfo {}", canon), &syncinfo_outcome(&msg));
+    }
     // arbitrary IntermediateResponse trees for parse_syncinfo
     for n in 0..(if thorough { 8000 } else { 1200 }) {
         let inner = gen_resp_tree(&mut rng, 2);
@@ -788,7 +824,7 @@ pub fn run(thorough: bool, mut rng: Rng, mut out: Out) {
     }
 
     // ================= control lists through the real envelope =================
-    for n in 0..(if thorough { 6000 } else { 800 }) {
+    for n in 0..(if thorough { 6000 } else { 1500 }) {
         let k = if n < 3 { n } else { rng.below(5) };
         let ctrls: Vec<RawControl> = (0..k).map(|_| gen_raw(&mut rng)).collect();
         let canon = ctrls.iter().map(show_raw).collect::<Vec<_>>().join(";");
@@ -857,6 +893,101 @@ pub fn run(thorough: bool, mut rng: Rng, mut out: Out) {
     }
 
     out.finish("every request control / extended request struct: all optional-field combinations x cookie lengths {0,1,127,128,300} x random contents, sizes {0,1,127,128,255,256,...,2^31-1} and random; filters from a corpus plus a random generator; response values encoded by the lane's RFC encoder with random non-minimal length forms and explicit/omitted DEFAULT elements; arbitrary and mutated trees for the panic outcomes; control lists of 0-4 random controls through verif_encode -> verif_decode and in alternative RFC 4511 encodings; non-trivial = at least one optional field / non-empty cookie / non-empty list; distinct by FNV hash of the canonical input");
+}
+
+fn rng_pick_tree<'a>(rng: &mut Rng, v: &'a [StructureTag]) -> &'a StructureTag {
+    &v[rng.below(v.len() as u64) as usize]
+}
+
+fn count_nodes(t: &StructureTag) -> u64 {
+    match &t.payload {
+        PL::P(_) => 1,
+        PL::C(ks) => 1 + ks.iter().map(count_nodes).sum::<u64>(),
+    }
+}
+
+/// apply `f` to the `n`-th node (pre-order)
+fn at_node(t: &mut StructureTag, n: &mut u64, f: &mut dyn FnMut(&mut StructureTag)) {
+    if *n == 0 {
+        f(t);
+        *n = u64::MAX;
+        return;
+    }
+    if *n == u64::MAX {
+        return;
+    }
+    *n -= 1;
+    if let PL::C(ks) = &mut t.payload {
+        for k in ks.iter_mut() {
+            at_node(k, n, f);
+            if *n == u64::MAX {
+                return;
+            }
+        }
+    }
+}
+
+/// one structural mutation: retag, primitive <-> constructed, empty, drop / duplicate / insert a child
+fn mutate_tree(rng: &mut Rng, t: &StructureTag) -> StructureTag {
+    let mut t = t.clone();
+    let mut n = rng.below(count_nodes(&t));
+    let kind = rng.below(9);
+    let r1 = rng.next();
+    let r2 = rng.next();
+    let extra = gen_resp_tree(rng, 1);
+    at_node(&mut t, &mut n, &mut |x: &mut StructureTag| match kind {
+        0 => x.class = cls_of((r1 % 4) as u8),
+        1 => x.id = [0u64, 1, 2, 3, 4, 5, 10, 16, 17][(r1 % 9) as usize],
+        2 => {
+            x.payload = match &x.payload {
+                PL::P(_) => PL::C(vec![]),
+                PL::C(_) => PL::P(vec![(r1 & 0xff) as u8]),
+            }
+        }
+        3 => {
+            if let PL::P(v) = &mut x.payload {
+                v.clear();
+            } else if let PL::C(ks) = &mut x.payload {
+                ks.clear();
+            }
+        }
+        4 => {
+            if let PL::C(ks) = &mut x.payload {
+                if !ks.is_empty() {
+                    ks.remove((r1 % ks.len() as u64) as usize);
+                }
+            }
+        }
+        5 => {
+            if let PL::C(ks) = &mut x.payload {
+                if !ks.is_empty() {
+                    let k = ks[(r1 % ks.len() as u64) as usize].clone();
+                    ks.insert((r2 % (ks.len() as u64 + 1)) as usize, k);
+                }
+            }
+        }
+        6 => {
+            if let PL::C(ks) = &mut x.payload {
+                ks.insert((r2 % (ks.len() as u64 + 1)) as usize, extra.clone());
+            }
+        }
+        7 => {
+            if let PL::P(v) = &mut x.payload {
+                if !v.is_empty() {
+                    let i = (r1 % v.len() as u64) as usize;
+                    v[i] = (r2 & 0xff) as u8;
+                } else {
+                    v.push((r2 & 0xff) as u8);
+                }
+            }
+        }
+        _ => {
+            if let PL::C(ks) = &mut x.payload {
+                ks.reverse();
+            }
+        }
+    });
+    t
 }
 
 /// RFC 4511 §4.1.11 encoding of a control chosen by the lane: criticality absent or explicit
